@@ -289,3 +289,29 @@ Definition lower_rune (r : rune) : rune :=
   else if (N.leb 1040 r && N.leb r 1071) then r + 32
   else if (N.leb 1024 r && N.leb r 1039) then r + 80
   else r.
+
+(* ---- the search rule spelled out ---- *)
+Lemma wprefixb_spec p : forall l, wprefixb p l = true <-> exists post, l = p ++ post.
+Proof. induction p as [|x p IH]; intros l; cbn.
+  - split; [intros _; now exists l|reflexivity].
+  - destruct l as [|y l']; [split; [discriminate|intros [? H]; discriminate]|]. rewrite andb_true_iff, str_eqb_eq, IH. split.
+    + intros [-> [post ->]]. now exists post.
+    + intros [post H]. inversion H; subst. split; [reflexivity|now exists post]. Qed.
+
+Lemma winfixb_spec p l : winfixb p l = true <-> exists pre post, l = pre ++ p ++ post.
+Proof. induction l as [|y t IH]; cbn [winfixb]; rewrite orb_true_iff.
+  - rewrite wprefixb_spec. split.
+    + intros [[post H]|H]; [|discriminate]. now exists [], post.
+    + intros (pre & post & H). left. destruct pre; [now exists post|discriminate].
+  - rewrite wprefixb_spec, IH. split.
+    + intros [[post H]|(pre & post & H)]; [now exists [], post|]. exists (y :: pre), post. now rewrite H.
+    + intros (pre & post & H). destruct pre as [|z pre]; [left; now exists post|]. right. inversion H; subst. now exists pre, post. Qed.
+
+Theorem found_spec q b : found q b = true <->
+  (q_search q = [] \/ exists t, In t (q_search q) /\ term_words t <> [] /\
+     exists text pre post, In text (b_texts b) /\ text = pre ++ term_words t ++ post).
+Proof. unfold found. destruct (q_search q) as [|t0 ts] eqn:E; [split; auto|]. rewrite existsb_exists. split.
+  - intros (t & Hin & H). right. exists t. split; [exact Hin|]. unfold term_found in H. destruct (term_words t) as [|w ws] eqn:Ew; [discriminate|].
+    split; [discriminate|]. apply existsb_exists in H as (text & Ht & H). apply winfixb_spec in H as (pre & post & H). now exists text, pre, post.
+  - intros [H|(t & Hin & Hne & text & pre & post & Ht & H)]; [discriminate|]. exists t. split; [exact Hin|]. unfold term_found.
+    destruct (term_words t) as [|w ws] eqn:Ew; [congruence|]. apply existsb_exists. exists text. split; [exact Ht|]. apply winfixb_spec. now exists pre, post. Qed.
